@@ -258,7 +258,9 @@ pub fn absorb(ctx: &mut Ctx, st: &Stats, spec: &GroupSpec) {
         ctx.label("notes", n);
     }
     if spec.group.starts_with("hint:") || spec.group.starts_with("misuse") {
-        ctx.distinct("hinting_config_groups", fnv64(spec.group.as_bytes()));
+        // (family, engine, target) without the optional pair index
+        let g: Vec<&str> = spec.group.split(':').take(3).collect();
+        ctx.distinct("hinting_config_groups", fnv64(g.join(":").as_bytes()));
     }
 }
 
@@ -622,7 +624,10 @@ pub fn run_group(bytes: &[u8], spec: &GroupSpec, partner: Option<&[u8]>, st: &mu
                 let mut it = g.split(':').skip(1);
                 let e: usize = it.next().and_then(|s| s.parse().ok()).unwrap_or(0);
                 let t: usize = it.next().and_then(|s| s.parse().ok()).unwrap_or(0);
-                group_hint(font, e, t, spec, &mut rng, st)
+                // optional 4th component: only the k-th (size, location) pair of the product (keeps cases whose
+                // every instance creation runs a near-budget prep program well inside the cpu progress bound)
+                let pick: Option<usize> = it.next().and_then(|s| s.parse().ok());
+                group_hint(font, e, t, pick, spec, &mut rng, st)
             }
             "hintall" => {
                 let e: usize = g.split(':').nth(1).and_then(|s| s.parse().ok()).unwrap_or(0);
@@ -1245,7 +1250,7 @@ fn draw_hinted_all(og: &OutlineGlyph, inst: &HintingInstance, rng: &mut Rng, lev
     }
 }
 
-fn group_hint(font: &FontRef, e: usize, t: usize, spec: &GroupSpec, rng: &mut Rng, st: &mut Stats) {
+fn group_hint(font: &FontRef, e: usize, t: usize, pick: Option<usize>, spec: &GroupSpec, rng: &mut Rng, st: &mut Stats) {
     let i = info(font);
     let oc = font.outline_glyphs();
     let opts = options(e, t, &oc);
@@ -1263,32 +1268,46 @@ fn group_hint(font: &FontRef, e: usize, t: usize, spec: &GroupSpec, rng: &mut Rn
     d.dbg(&opts.target);
     st.distinct("hinting_configs", d.finish());
     let mut reuse: Option<HintingInstance> = None;
+    let mut pairs: Vec<(Option<f32>, &Vec<NormalizedCoord>)> = vec![];
     for s in &szs {
         for cv in &cvs {
-            let r = HintingInstance::new(&oc, size_of(*s), LocationRef::new(cv), opts.clone());
-            st.res("hint_instance_errors", &r);
-            st.count(if r.is_ok() { "hint_instance_ok" } else { "hint_instance_err" }, 1);
-            let Ok(inst) = r else { continue };
-            use_instance(&inst, st);
-            for g in &gids {
-                let Some(og) = oc.get(GlyphId::new(*g)) else { continue };
-                draw_hinted_all(&og, &inst, rng, spec.level, st);
-            }
-            // reconfigure a long-lived instance (same font): history must not matter for totality
-            match reuse.as_mut() {
-                None => reuse = Some(inst.clone()),
-                Some(h) => {
-                    let e2 = if rng.chance(1, 3) { rng.usize(N_ENGINES) } else { e };
-                    let o2 = options(e2, rng.usize(N_TARGETS), &oc);
-                    let r = h.reconfigure(&oc, size_of(*s), LocationRef::new(cv), o2);
-                    st.res("hint_instance_errors", &r);
-                    st.count("reconfigure_calls", 1);
-                    use_instance(h, st);
-                    if let Some(og) = oc.get(GlyphId::new(*rng.pick(&gids))) {
-                        draw_hinted_all(&og, h, rng, 0, st);
-                    }
-                }
-            }
+            pairs.push((*s, cv));
+        }
+    }
+    if let Some(k) = pick {
+        pairs = vec![pairs[k % pairs.len()]];
+    }
+    // reconfigure a long-lived instance (same font): history must not matter for totality
+    let reconfigure = |h: &mut HintingInstance, s: Option<f32>, cv: &Vec<NormalizedCoord>, rng: &mut Rng, st: &mut Stats| {
+        let e2 = if rng.chance(1, 3) { rng.usize(N_ENGINES) } else { e };
+        let o2 = options(e2, rng.usize(N_TARGETS), &oc);
+        let r = h.reconfigure(&oc, size_of(s), LocationRef::new(cv), o2);
+        st.res("hint_instance_errors", &r);
+        st.count("reconfigure_calls", 1);
+        use_instance(h, st);
+        if let Some(og) = oc.get(GlyphId::new(*rng.pick(&gids))) {
+            draw_hinted_all(&og, h, rng, 0, st);
+        }
+    };
+    for (s, cv) in &pairs {
+        let r = HintingInstance::new(&oc, size_of(*s), LocationRef::new(cv), opts.clone());
+        st.res("hint_instance_errors", &r);
+        st.count(if r.is_ok() { "hint_instance_ok" } else { "hint_instance_err" }, 1);
+        let Ok(inst) = r else { continue };
+        use_instance(&inst, st);
+        for g in &gids {
+            let Some(og) = oc.get(GlyphId::new(*g)) else { continue };
+            draw_hinted_all(&og, &inst, rng, spec.level, st);
+        }
+        match reuse.as_mut() {
+            None => reuse = Some(inst.clone()),
+            Some(h) => reconfigure(h, *s, cv, rng, st),
+        }
+    }
+    if pick.is_some() {
+        // a single pair: reconfigure the clone of its own instance once
+        if let (Some(h), Some((s, cv))) = (reuse.as_mut(), pairs.first()) {
+            reconfigure(h, *s, cv, rng, st);
         }
     }
 }
